@@ -174,12 +174,21 @@ func (d *driver) tierSize(r *runSpec) (batches, cases int) {
 
 func (d *driver) runOne(ri int, r *runSpec, kf *knownFile) error {
 	t0 := time.Now()
+	if b, _ := d.tierSize(r); b == 0 {
+		return nil
+	}
 	bin, err := d.buildWorker(r.race, r.buildFlags...)
 	if err != nil {
 		// A tree that does not compile is not a property verdict.
 		return err
 	}
 	batches, cases := d.tierSize(r)
+	if d.tier == "thorough" && os.Getenv("VERIF_THOROUGH_SCALE") != "" {
+		// debugging aid: scale the thorough tier down (e.g. 0.1)
+		if f, err := strconv.ParseFloat(os.Getenv("VERIF_THOROUGH_SCALE"), 64); err == nil && f > 0 {
+			batches = int(float64(batches)*f) + 1
+		}
+	}
 	par := r.parallel
 	if par <= 0 {
 		par = 16
